@@ -375,6 +375,8 @@ def _phase1(arg):
 
 def run_jobs(ctx, jobs, prop, required):
   jobs = core.seeded_order(jobs, ctx.seed)
+  from . import daemonconf
+  daemonconf.prefetch([(INF, False, 'base')])
   phase1 = core.pmap(_phase1, [(j, j[1][0] + j[1][1] >= 2) for j in jobs], chunksize=1)
   results = [None] * len(jobs)
   tasks = []
